@@ -131,10 +131,10 @@ type Node struct {
 	mu        sync.Mutex
 	cond      *sync.Cond
 	out       []Packet
-	parked    int // Receive callers currently waiting for a packet
-	parkedAsk int // ServeAsk callers currently waiting for a request
-	entered   int // total Receive entries
-	taken     int // total packets handed to Receive callers
+	parked    int    // Receive callers currently waiting for a packet
+	parkedAsk int    // ServeAsk callers currently waiting for a request
+	entered   int    // total Receive entries
+	taken     int    // total packets handed to Receive callers
 	prev      []byte // the previous packet handed to a callback of this node (poison source)
 }
 
@@ -148,6 +148,16 @@ func (nd *Node) poison(buf, orig []byte) {
 	}
 	nd.mu.Unlock()
 	Poison(buf, prev)
+}
+
+// Scribble overwrites a payload the harness' own callback was handed (0xA5).  p2p.Receiver: "All of the
+// message's fields may be modified inside fn. A message is only ever delivered to one place": the top-level
+// Receive callbacks and ServeAsk handlers of the replayers use that right just before they return, so that a
+// layer which hands the same buffer to a second callback, or reads it again later, delivers 0xA5 bytes.
+func Scribble(buf []byte) {
+	for i := range buf {
+		buf[i] = 0xA5
+	}
 }
 
 // Poison fills buf with src (if any) followed by 0xEE bytes.
